@@ -149,12 +149,12 @@ fn plan(env: &vlib::Env, rec: &mut Recorder, which: usize, shards: usize, paddin
     }
     let mut faults = Vec::new();
     if env.thorough {
-        // every inventoried chunk x 3 patterns (S=1); seeded 30 % sample for S>1
+        // every inventoried chunk x 2 patterns (S=1); seeded 30 % sample for S>1
         for (n, c) in st.chunks.iter().enumerate() {
             if shards > 1 && r.below(10) >= 3 {
                 continue;
             }
-            for k in 0..3 {
+            for k in 0..2 {
                 let p = pattern(n + k * 2, c.len, &mut r);
                 faults.push((Fault { key: c.key.clone(), chunk_no: c.chunk_no, pattern: p }, c.len));
             }
